@@ -1,0 +1,17 @@
+//go:build verif
+// +build verif
+
+package utility
+
+import "time"
+
+// Verification hook H1 (build tag verif only): never query NTP, and let the
+// harness decide the clock offset.
+func init() {
+	ntpInitFlag = true
+}
+
+// VerifSetTimeOffset sets the offset GetTime adds to the local clock.
+func VerifSetTimeOffset(d time.Duration) {
+	timeOffset = d
+}
